@@ -21,7 +21,7 @@ META = {
                   "RegistryEmptyAtEnd hold in every reachable state of the bounded model. On the real code, through the public API only "
                   "(cid.Prefix.Sum -> registered hasher while a real Fetch over a fake exchange is pending): every enumerated case for "
                   "every sample/row/row-namespace/range identifier of seeded squares (ODS 1,2,4) leaves the requester's container empty "
-                  "or equal to the committed data; every Blockstore.Get block is accepted and delivered; id->CID->id is the identity on "
+                  "or equal to the committed data; every Blockstore.Get block -- served from the in-memory accessor and from a real store.Store as recent cache, reopened ODS+Q4 files, ODS only and Q4-pruned -- is accepted and delivered; id->CID->id is the identity on "
                   "the identifier boundary lattice up to the protocol maximum; model behaviours are replayed step by step.",
     "level_note": "Cryptography is ideal in the model (a container verifies iff it is the honest container of that identifier from the "
                   "requester's square); real nmt/rsmt2d verification runs in every case. Bounds: 2 Fetch calls, 2 hasher threads, <= 2 (quick) / "
